@@ -24,6 +24,28 @@ _CMP = {
     ast.Gt: operator.gt, ast.GtE: operator.ge, ast.Is: operator.is_, ast.IsNot: operator.is_not,
     ast.In: lambda a, b: a in b, ast.NotIn: lambda a, b: a not in b,
 }
+_NO_DEFAULT = object()
+
+
+class _Gen(list):
+    """a folded generator expression: a list with a cursor, so that next() consumes"""
+    pos = 0
+
+
+def _next(it, default=_NO_DEFAULT):
+    """next() over a folded iterable (generator expressions fold to lists: take the first element)"""
+    if isinstance(it, _Gen):
+        if it.pos < len(it):
+            it.pos += 1
+            return it[it.pos - 1]
+        if default is _NO_DEFAULT:
+            raise IndexError("StopIteration")
+        return default
+    if isinstance(it, (list, tuple)):
+        raise TypeError("next() of a list")
+    return next(it) if default is _NO_DEFAULT else next(it, default)
+
+
 def _isinstance(v, t):
     ts = t if isinstance(t, tuple) else (t,)
     if not all(isinstance(x, type) for x in ts):
@@ -37,7 +59,7 @@ _BUILTINS = {
     "zip": zip, "enumerate": enumerate, "min": min, "max": max, "sum": sum, "abs": abs,
     "any": any, "all": all, "reversed": reversed, "chr": chr, "ord": ord, "round": round,
     "True": True, "False": False, "None": None, "isinstance": _isinstance, "repr": repr,
-    "divmod": divmod, "pow": pow, "format": format,
+    "divmod": divmod, "pow": pow, "format": format, "next": _next, "iter": list,
 }
 _SAFE_METHODS = {
     str: {"join", "lower", "upper", "strip", "lstrip", "rstrip", "split", "replace", "startswith",
@@ -161,7 +183,8 @@ class ClassRef:
 
 
 class FoldRaise(AnalysisError):
-    """the folded code executed a `raise` statement"""
+    """the folded code executed a `raise` statement (or an operation of it raised)"""
+    exc_name = None
 
 
 class _Break(Exception):
@@ -331,6 +354,25 @@ class Folder:
             # lookups on folded containers raise the genuine exception types: handlers are matched by name
             try:
                 self._exec_block(st.body, e)
+            except FoldRaise as exc:
+                hit = None
+                for h in st.handlers:
+                    names = []
+                    if h.type is None:
+                        names = [exc.exc_name]
+                    elif isinstance(h.type, ast.Name):
+                        names = [h.type.id]
+                    elif isinstance(h.type, ast.Tuple):
+                        names = [x.id for x in h.type.elts if isinstance(x, ast.Name)]
+                    if exc.exc_name is not None and (exc.exc_name in names or "Exception" in names or "BaseException" in names
+                                                     or self._exc_subclass(exc.exc_name, names, e)):
+                        hit = h
+                        break
+                if hit is None:
+                    raise
+                if hit.name:
+                    e.set(hit.name, exc)
+                self._exec_block(hit.body, e)
             except (KeyError, IndexError, ValueError, TypeError, ZeroDivisionError) as exc:
                 for h in st.handlers:
                     names = []
@@ -351,7 +393,10 @@ class Folder:
             else:
                 self._exec_block(st.orelse, e)
         elif isinstance(st, ast.Raise):
-            raise FoldRaise(f"raise {ast.unparse(st.exc)[:60] if st.exc is not None else ''}")
+            fr = FoldRaise(f"raise {ast.unparse(st.exc)[:60] if st.exc is not None else ''}")
+            exc = st.exc.func if isinstance(st.exc, ast.Call) else st.exc
+            fr.exc_name = exc.id if isinstance(exc, ast.Name) else (exc.attr if isinstance(exc, ast.Attribute) else None)
+            raise fr
         else:
             raise AnalysisError(f"constfold: unsupported statement {type(st).__name__}")
 
@@ -479,6 +524,8 @@ class Folder:
         if isinstance(x, (ast.ListComp, ast.SetComp, ast.GeneratorExp)):
             res = []
             self._comp(x.generators, 0, e, lambda ee: res.append(self._eval(x.elt, ee)))
+            if isinstance(x, ast.GeneratorExp):
+                return _Gen(res)
             return set(res) if isinstance(x, ast.SetComp) else res
         if isinstance(x, ast.DictComp):
             res = {}
@@ -583,6 +630,20 @@ class Folder:
                 if b is not None and b.kind == "module":
                     tgt = self.value(b.target, f.attr)
                     return self._apply(tgt, x, e)
+            if isinstance(f.value, ast.Call) and isinstance(f.value.func, ast.Name) and f.value.func.id == "super" \
+                    and not f.value.args:
+                owner = e.owner
+                if owner is None or owner.cls is None:
+                    raise AnalysisError("constfold: super() outside a method")
+                m = owner.cls.find_method(f.attr, after=owner.cls)
+                if m is None:
+                    if f.attr == "__init__":
+                        return None
+                    raise AnalysisError(f"constfold: super().{f.attr} not found")
+                selfv = e.get(owner.params[0])
+                args = self._elts(x.args, e)
+                kw = {k.arg: self._eval(k.value, e) for k in x.keywords}
+                return self.call_function(m, args, kw, self_value=selfv)
             obj = self._eval(f.value, e)
             if isinstance(obj, Stub):
                 args = self._elts(x.args, e)
@@ -694,6 +755,16 @@ class Folder:
             return self._eval(lam.body, ee)
         raise AnalysisError(f"constfold: call of {type(tgt).__name__}")
 
+    def _exc_subclass(self, name, handler_names, e):
+        """is the in-package exception class `name` a subclass of one of handler_names?"""
+        c = self.index.find_class(name) if hasattr(self.index, "find_class") else None
+        try:
+            if c is None:
+                return False
+            return any(getattr(b, "name", b) in handler_names for b in c.mro())
+        except Exception:
+            return False
+
     def call_value(self, tgt, args):
         """apply a folded callable (lambda, nested function, function reference) to Python values;
         for stub methods that receive callbacks"""
@@ -738,6 +809,7 @@ class Folder:
         pos = a.posonlyargs + a.args
         defaults = dict(zip([p.arg for p in pos[len(pos) - len(a.defaults):]], a.defaults))
         menv = _Env(self, fn.module, self.module_env(fn.module), local)
+        menv.owner = fn
         for i, p in enumerate(params):
             if i < len(args):
                 local[p] = args[i]
@@ -747,6 +819,20 @@ class Folder:
                 local[p] = self._eval(defaults[p], menv)
             else:
                 raise AnalysisError(f"constfold: missing argument {p} for {fn.key}")
+        if a.vararg is not None:
+            local[a.vararg.arg] = tuple(args[len(params):])
+        elif len(args) > len(params):
+            raise AnalysisError(f"constfold: too many arguments for {fn.key}")
+        kwonly = {k.arg: d for k, d in zip(a.kwonlyargs, a.kw_defaults)}
+        for k_, d_ in kwonly.items():
+            if k_ in kw:
+                local[k_] = kw[k_]
+            elif d_ is not None:
+                local[k_] = self._eval(d_, menv)
+            else:
+                raise AnalysisError(f"constfold: missing keyword-only argument {k_} for {fn.key}")
+        if a.kwarg is not None:
+            local[a.kwarg.arg] = {k_: v_ for k_, v_ in kw.items() if k_ not in params and k_ not in kwonly}
         self._depth = getattr(self, "_depth", 0) + 1
         if self._depth == 1:
             self.fuel = max(self.fuel, getattr(self, "fuel_per_call", 2_000_000))   # the bound is per top-level fold
@@ -771,10 +857,12 @@ class _Env:
         self.globals = globals_
         self.local = local      # None at module level
         self.parent = None
+        self.owner = None       # FunctionInfo being folded (for super())
 
     def child(self):
         c = _Env(self.folder, self.mod, self.globals, {})
         c.parent = self
+        c.owner = self.owner
         return c
 
     def has(self, name):
